@@ -354,7 +354,7 @@ func (w *World) genDevice(stream string, maxBytes int) kernel.DevCfg {
 	}
 	if w.t.Chance(stream, "dev.fail", 3, 10) {
 		cfg.ErrAt = w.t.Choose(stream, "dev.errat", maxBytes+8)
-		cfg.ErrKind = 1 + w.t.Choose(stream, "dev.errkind", 4)
+		cfg.ErrKind = 1 + w.t.Choose(stream, "dev.errkind", 5)
 		cfg.ErrWithData = w.t.Bool(stream, "dev.errdata")
 	}
 	return cfg
